@@ -105,10 +105,13 @@ func (f *Read) wrapRead(s *slip.Scope, r io.Reader, eofp bool, eofv slip.Object,
 		)
 		b := []byte{0}
 		for {
-			if n, err := r.Read(b); err != nil || n != 1 {
-				if err != nil && !errors.Is(err, io.EOF) {
-					panic(err)
-				}
+			// A reader can return the last byte together with io.EOF so
+			// the byte is used before the error is considered.
+			n, err := r.Read(b)
+			if err != nil && !errors.Is(err, io.EOF) {
+				panic(err)
+			}
+			if n != 1 {
 				break
 			}
 			buf = append(buf, b[0])
@@ -127,6 +130,9 @@ func (f *Read) wrapRead(s *slip.Scope, r io.Reader, eofp bool, eofv slip.Object,
 				}
 			}
 			prev = pos
+			if err != nil {
+				break
+			}
 		}
 		if 0 < len(code) {
 			return code[0]
